@@ -32,4 +32,18 @@ def ldProofVerifyBytes (table : List (Nat × String)) (rsaAlg edAlg : String) (k
     (canonicalizes : Bool) (jws : Bytes) : Outcome :=
   ldProofVerify { L with keyAlg := fun _ => signatureAlgorithm table rsaAlg edAlg kind } key canonicalizes (ldJwsParts jws) (ldSigDecodes jws)
 
+/-- the rule of seeded mutation C17-w9m1 (`proofAlgorithm`): the algorithm the detached JWS's OWN protected header names when it names
+    one other than "none", the key-derived one only as the default; AlgorithmFitsKey kept, no allow-list -/
+def headerAlgRule (hdrAlg : Option String) (keyAlg : Option String) : Option String :=
+  match keyAlg with
+  | none => none
+  | some k =>
+    match hdrAlg with
+    | some a => if a ≠ "" ∧ a ≠ "none" then some a else some k
+    | none => some k
+
+/-- LDProof.Verify with that rule -/
+def ldProofVerifyHdr (L : LdEnv) (key : Key) (hdrAlg : Option String) (canonicalizes : Bool) (jwsParts : Nat) (sigDecodes : Bool) : Outcome :=
+  ldProofVerify { L with keyAlg := fun k => headerAlgRule hdrAlg (L.keyAlg k) } key canonicalizes jwsParts sigDecodes
+
 end Nuts.C17.LdBytes
